@@ -109,6 +109,7 @@ def run(ctx):
         c19.r19_6(ctx, counter)
         c19.r19_7(ctx, counter)
         c19.r19_8(ctx, counter)   # a leaked share of the owner counter: nobody is ever the last owner
+        c19.r19_1(ctx, counter)   # every handle of one observable shares one owner counter (a clone with a counter of its own closes early)
     r03_9(ctx)
     # R03.8 the close function marks the state closed on every path (no "nobody is parked" early return before the store)
     cb = close_fn.built
